@@ -125,7 +125,8 @@ func c02SetPayload(b [188]byte, m *ref.Packet, data []byte) *hx.Failure {
 // packet): the bytes to store are the ones the window held when the call was made.
 // window[2] selects where the window comes from and how it is sliced: 0 the packet's payload as packet.Payload
 // returns it, 1 the same with the capacity clipped to the window (own[lo:hi:hi]), 2 the packet array itself
-// (header and adaptation field included, e.g. p[:] or packet.Header(p)), 3 that with clipped capacity.
+// (header and adaptation field included, e.g. p[:] or packet.Header(p)), 3 that with clipped capacity, 4 a larger
+// buffer that holds the packet (window offsets relative to that buffer, the packet at [188,376)).
 func c02SetPayloadFrom(b [188]byte, m *ref.Packet, data []byte, window *[3]int) *hx.Failure {
 	if len(data) == 0 && data != nil && window == nil {
 		// zero bytes can be handed over as an empty slice or as nil: the same request
@@ -136,7 +137,24 @@ func c02SetPayloadFrom(b [188]byte, m *ref.Packet, data []byte, window *[3]int) 
 	}
 	p := packet.Packet(b)
 	arg := data
-	if window != nil {
+	pp := &p
+	var big, bigKeep []byte
+	if window != nil && window[2] == 4 {
+		// the packet is a view into a larger buffer (the middle one of three packets read in one go) and the data is a
+		// piece of that buffer which overlaps the packet: a slice with more capacity than a packet has
+		big = make([]byte, 3*188)
+		for i := range big {
+			big[i] = byte(i*7 + 3)
+		}
+		copy(big[188:], b[:])
+		bigKeep = clone(big)
+		pp = (*packet.Packet)(big[188:376])
+		if window[0] < 0 || window[1] > len(big) || window[0] > window[1] {
+			return hx.Failf("bad-case", "window outside its source")
+		}
+		arg = big[window[0]:window[1]]
+		data = clone(arg)
+	} else if window != nil {
 		own, err := packet.Payload(&p)
 		if window[2] >= 2 {
 			own, err = p[:], nil
@@ -151,7 +169,13 @@ func c02SetPayloadFrom(b [188]byte, m *ref.Packet, data []byte, window *[3]int) 
 		data = clone(arg)
 	}
 	keep := clone(data)
-	n, err := p.SetPayload(arg)
+	n, err := pp.SetPayload(arg)
+	if big != nil {
+		p = *pp
+		if !bytes.Equal(big[:188], bigKeep[:188]) || !bytes.Equal(big[376:], bigKeep[376:]) {
+			return hx.Failf("setpayload-mutates-arg", "SetPayload modified the caller's buffer outside the packet")
+		}
+	}
 	if window == nil && !bytes.Equal(keep, data) {
 		return hx.Failf("setpayload-mutates-arg", "SetPayload modified the caller's data")
 	}
@@ -174,9 +198,11 @@ func c02SetPayloadFrom(b [188]byte, m *ref.Packet, data []byte, window *[3]int) 
 	}
 	ctx := fmt.Sprintf("afc=%d af_len=%v content=%d capacity=%d n=%d", m.AFC, afLen(m), contentOf(m), capacity, len(data))
 	if window != nil {
-		ctx += fmt.Sprintf(", data = bytes [%d,%d) of %s", window[0], window[1], []string{"the packet's own payload as returned by packet.Payload", "the packet's own payload, capacity clipped to the window", "the packet's own 188 bytes", "the packet's own 188 bytes, capacity clipped to the window"}[window[2]])
+		ctx += fmt.Sprintf(", data = bytes [%d,%d) of %s", window[0], window[1], []string{"the packet's own payload as returned by packet.Payload", "the packet's own payload, capacity clipped to the window", "the packet's own 188 bytes", "the packet's own 188 bytes, capacity clipped to the window", "a 564-byte buffer in which the packet occupies bytes [188,376)"}[window[2]])
 	}
-	if err != nil {
+	// a count below len(data) may come with an error value in the manner of io.Writer (the statement speaks of an error only
+	// for the refused call): then count, bytes and read-back are still checked; a call that stores everything must not fail
+	if err != nil && len(data) <= capacity {
 		return hx.Failf("setpayload-error", "SetPayload failed on a packet that carries payload: %v (%s)", err, ctx)
 	}
 	if n != want {
@@ -363,14 +389,16 @@ func c02Helpers(c CaseC02) *hx.Failure {
 		return hx.Failf("create-SetPayload", "free SetPayload reported %d bytes (want %d); the payload read back (%d bytes, err %v) does not start with them", n, k, len(qp), qerr)
 	}
 	// WithPES
-	q = packet.Create(pid)
-	packet.WithPES(q, c.PTS)
-	if f := hdr("WithPES", q, true, true); f != nil {
-		return f
-	}
-	pay, err = packet.Payload(q)
-	if err != nil || len(pay) < 14 || pay[0] != 0 || pay[1] != 0 || pay[2] != 1 || pay[7]&0xC0 != 0x80 || ref.DecodePTS(pay[9:14]) != c.PTS {
-		return hx.Failf("create-WithPES", "WithPES payload is not a PES start carrying PTS %d (err=%v)", c.PTS, err)
+	for i, opts := range [][]func(*packet.Packet){{}, {packet.WithHasAdaptationFieldFlag}, {packet.WithHasPayloadFlag}, {packet.WithHasAdaptationFieldFlag, packet.WithHasPayloadFlag}, {packet.WithPUSI, packet.WithHasAdaptationFieldFlag}} {
+		q = packet.Create(pid, opts...)
+		packet.WithPES(q, c.PTS)
+		if f := hdr("WithPES", q, true, true); f != nil {
+			return f
+		}
+		pay, err = packet.Payload(q)
+		if err != nil || len(pay) < 14 || pay[0] != 0 || pay[1] != 0 || pay[2] != 1 || pay[7]&0xC0 != 0x80 || ref.DecodePTS(pay[9:14]) != c.PTS {
+			return hx.Failf("create-WithPES", "WithPES (after option set %d) payload is not a PES start carrying PTS %d (err=%v)", i, c.PTS, err)
+		}
 	}
 	return nil
 }
@@ -437,13 +465,26 @@ func checkC02(c CaseC02, x *hx.Ctx) *hx.Failure {
 			return f
 		}
 	}
+	// the packet as a view into a larger buffer, the data a piece of that buffer overlapping it
+	if m.AFC&1 != 0 {
+		lo := 100 + (c.CC*13+c.PID)%276
+		hi := lo + len(c.Data)
+		if hi > 3*188 {
+			hi = 3 * 188
+		}
+		x.Label("packet-and-data-views-of-one-larger-buffer")
+		if f := c02SetPayloadFrom(b, m, nil, &[3]int{lo, hi, 4}); f != nil {
+			f.Key += "-own-window"
+			return f
+		}
+	}
 	return c02Helpers(c)
 }
 
 var propC02 = hx.Register(hx.Prop[CaseC02]{ID: "C02", Gen: genC02, Check: checkC02})
 
 func c02Rule() {
-	hx.Rec("C02").SetRule("cases: a well-formed packet built from the reference model (AFC 1/2/3, af_len 0..183, every fitting subset of the optional AF fields with random contents and variable-field lengths biased to 0 and 'exactly fills') + a payload of 0..200 bytes (length biased to capacity-1, capacity, capacity+1, 0, 183, 184; first byte biased to AF-flag-like values; payloads and data start one time in three like a PES packet with PTS/DTS, a PSI section or a transport packet) + creation-helper arguments (Create is also called with a window of a caller-owned option slice and then with all of it). Oracle: reference partition arithmetic; the packet after SetPayload must equal byte-for-byte the reference encoding of (same header fields, same AF logical content, af_len'=183-stored, 0xFF stuffing, payload=data[:min(n,capacity)]). Enumerated: all (af_len 0..183, n 0..200) pairs for two AF contents each. Non-trivial: SetPayload on a packet with >=1 optional AF field and n != old payload length, or af_len 0, or n > capacity.",
+	hx.Rec("C02").SetRule("cases: a well-formed packet built from the reference model (AFC 1/2/3, af_len 0..183, every fitting subset of the optional AF fields with random contents and variable-field lengths biased to 0 and 'exactly fills') + a payload of 0..200 bytes (length biased to capacity-1, capacity, capacity+1, 0, 183, 184; first byte biased to AF-flag-like values; payloads and data start one time in three like a PES packet with PTS/DTS, a PSI section or a transport packet) + creation-helper arguments (Create is also called with a window of a caller-owned option slice and then with all of it). SetPayload is also handed windows of the packet's own payload and of its own 188 bytes (capacity clipped or not), and a piece of a 564-byte buffer in which the packet itself is a view (bytes [188,376)); WithPES follows every combination of the flag options. Oracle: reference partition arithmetic; the packet after SetPayload must equal byte-for-byte the reference encoding of (same header fields, same AF logical content, af_len'=183-stored, 0xFF stuffing, payload=data[:min(n,capacity)]). Enumerated: all (af_len 0..183, n 0..200) pairs for two AF contents each. Non-trivial: SetPayload on a packet with >=1 optional AF field and n != old payload length, or af_len 0, or n > capacity.",
 		"PUSI of CreateTestPacket is asserted only when a payload was requested",
 		"CreatePacketWithPayload: only the leading len(pay) payload bytes are asserted",
 		"n=0 yields AFC=3 with af_len 183 and a zero-length payload (the library's partition invariant, not ISO's af_len<=182 rule)")
